@@ -68,11 +68,12 @@ func execPar(args []string) string {
 	if rec {
 		opt.Recovery = gws.Recovery
 	}
-	conn, _, peer, err := serverConnRaw(opt, h, "")
+	conn, sc, peer, err := serverConnRaw(opt, h, "")
 	if err != nil {
 		return "handshake-failed"
 	}
 	go conn.ReadLoop()
+	defer sc.Unstall()
 	key := [4]byte{1, 2, 3, 4}
 	fed, nStarted, nRunning := 0, 0, 0
 	awaitStart := func(id int) string {
@@ -108,6 +109,16 @@ func execPar(args []string) string {
 	}
 	if args[2] != "." {
 		for _, a := range strings.Split(args[2], ",") {
+			if a == "c" {
+				// a local close is in progress: it has set the closed flag and is stalled writing its Close frame
+				// (the transport is still open, so messages keep arriving and must be handled as before)
+				sc.Stall()
+				go func() { _ = conn.WriteClose(1000, nil) }()
+				if !sc.WaitStalled(1, 2*time.Second) {
+					return "bad-op close-did-not-stall"
+				}
+				continue
+			}
 			if a == "d" {
 				fed++
 				_, _ = peer.Write(frameSpec{fin: true, opcode: 2, masked: true, key: key, payload: []byte{byte(fed)}}.bytes())
@@ -197,6 +208,12 @@ func genPar(g *Gen) {
 			}
 		}
 		rec(nil, 0, nil, 0)
+	}
+	// the same with a local close in progress (closed flag set, transport still open) from some point on
+	for _, limit := range []int{1, 2} {
+		for _, acts := range []string{"c,d", "d,c,d", "c,d,d,f1", "d,c,d,d,f1,f2", "d,d,c,d,f1,d,p2,f3", "c,d,f1,d,f2", "d,c,f1,d,d,d,f2,f3"} {
+			g.Emit("par %d 1 %s", limit, acts)
+		}
 	}
 	// an unrecovered panic kills the process
 	g.Emit("par 2 0 d,p1")
